@@ -350,6 +350,7 @@ void CloseFile(void) {
         ChkIO(ErrNum_FileWriteError);
     }
     fclose(PrgFile);
+    PrgFile = NULL;
 }
 
 /*--- erzeugten Code einer Zeile in Datei ablegen ---------------------------*/
